@@ -150,24 +150,46 @@ def impl(case):
         if st != "ok":
             return fin(st, None, None)
         return [[0], idx_list(v[0]), [int(float(v[1][0]) * unit)]]
-    tr = Affine(float(call["xres"]), 0.0, 10.0, 0.0, float(call["yres"]), 20.0)
+    start = a[5][0]
+    # every other raster lies far from the origin (UTM-like coordinates: binary32 could not tell its cells apart, round-5 seed)
+    x0, y0 = (10.0, 20.0) if (start + n) % 2 else (400000.0, 9000000.0)
+    tr = Affine(float(call["xres"]), 0.0, x0, 0.0, float(call["yres"]), y0)
     flw = pyflwdir.from_array(np.array(call["flw"], dtype=np.uint8).reshape(call["nr"], call["nc"]), ftype="d8", transform=tr)
     from implutil import layout
     m2 = layout(mask.reshape(call["nr"], call["nc"]), call.get("layout")) if mask is not None else None
     kw = dict(mask=m2, max_length=ml, unit="m" if call["unit_m"] else "cell", direction=call["direction"])
-    start = a[5][0]
-    if call["xy"]:
-        r, c = divmod(start, call["nc"])
-        kw["xy"] = (np.array([10.0 + call["xres"] * (c + 0.25)]), np.array([20.0 + call["yres"] * (r + 0.75)]))
-    else:
-        kw["idxs"] = np.array([start])
-    if api == "ras-path":
-        st, v = call_impl(flw.path, timeout=5, **kw)
-        return fin(st, v[0][0] if st == "ok" else None, v[1][0] if st == "ok" else None)
-    st, v = call_impl(flw.snap, timeout=5, **kw)
+    # several start cells in one call, not in ascending order and with a repeat: the i-th result belongs to the i-th start
+    # (round-5 seed); the first one is compared with the model, the others with single-start calls
+    others = [i for i in range(n) if ds[i] >= 0 and i != start]
+    starts = [start] if (start + len(others)) % 3 == 0 or not others else [start, others[(start * 7) % len(others)], start]
+
+    def where(cells):
+        if call["xy"]:
+            return {"xy": (np.array([x0 + call["xres"] * (i % call["nc"] + 0.25) for i in cells]),
+                           np.array([y0 + call["yres"] * (i // call["nc"] + 0.75) for i in cells]))}
+        return {"idxs": np.array(cells)}
+    fn = flw.path if api == "ras-path" else flw.snap
+    st, v = call_impl(fn, timeout=5, **kw, **where(starts))
     if st != "ok":
         return fin(st, None, None)
-    return [[0], idx_list(v[0]), [int(float(v[1][0]) * unit)]]
+    if len(v[0]) != len(starts) or len(v[1]) != len(starts):
+        return [[-3], [f"{len(v[0])} results for {len(starts)} start cells"]]
+    one = (lambda j: ([int(x) for x in v[0][j]], float(v[1][j]))) if api == "ras-path" else (lambda j: (int(v[0][j]), float(v[1][j])))
+    if len(starts) == 3:
+        if one(0) != one(2):
+            return [[-3], ["a repeated start cell gives two different results"]]
+        st1, v1 = call_impl(fn, timeout=5, **kw, **where([starts[1]]))
+        v_ = v
+        if st1 != "ok":
+            return [[-3], [f"second start cell alone: {st1}"]]
+        v = v1
+        single = one(0)
+        v = v_
+        if one(1) != single:
+            return [[-3], [f"the result for the second of three start cells {one(1)} differs from the single-start call {single}"]]
+    if api == "ras-path":
+        return fin(st, v[0][0], v[1][0])
+    return [[0], idx_list(v[0][:1]), [int(float(v[1][0]) * unit)]]
 
 
 def _expected(case):
